@@ -65,6 +65,11 @@ static unsigned int assemble_const(unsigned long constant,
  */
 static bool check_zero(struct instr *instruc, unsigned long saved_imm,
                        instr_type type) {
+  // a 32-bit destination takes the 32-bit pattern as it is
+  unsigned int opd0_mode = instruc->opd[0].reg & MODE_MASK;
+  if (instruc->mem_disp ? instruc->keyword.is_dword
+                        : (opd0_mode == reg32 || opd0_mode == ext32))
+    return false;
   // check for signed 32bit overflow
   if (IN_RANGE(saved_imm, NEG32BIT_CHECK, MAX_UNSIGNED_32BIT) &&
       !instruc->reduced_imm && type != CONTROL_FLOW) {
